@@ -409,8 +409,16 @@ def run_link(objects, layout, opt, events):
                 events.append({"ev": "fail", "phase": "outside", "exc": type(e).__name__, "msg": str(e)[:200],
                                "state": None})
             return None
-    events.append({"ev": "end", "state": P.project(out, debug=False)})
+    events.append({"ev": "end", "state": P.project(out, debug=False), "imgdata": [image_data(i) for i in out.images]})
     return out
+
+
+def image_data(img):
+    """objectfile.Image.data (gap filling, overlap detection) as observed"""
+    try:
+        return {"name": P._s(img.name), "ok": True, "data": list(bytes(img.data))}
+    except Exception as e:
+        return {"name": P._s(img.name), "ok": False, "data": [], "exc": type(e).__name__}
 
 
 def run_job(job, sizes_of, jid):
@@ -526,6 +534,8 @@ def gen_reloc_job(rng, arch):
     isize = len(psec.data) - 1
     roff, addend = r0.offset, r0.addend
     lead = rng.choice([0, 0, 4, 8, 12]) if ia > 1 else rng.choice([0, 0, 1, 3, 4, 7])
+    # an object linked in front contributes `shift` bytes to section code: the site is merged at an offset
+    shift = rng.choice([0, 0, 0, 4, 8, 16])
     absolute = rtype not in AIM
     pre = ["section code"] + (["ds %d" % lead] if lead else [])
     lay = None
@@ -551,7 +561,7 @@ def gen_reloc_job(rng, arch):
         far = abs(d) >= 0x200 or (rng.random() < 0.2 and abs(d) >= 0x40)
         if far:
             base_code = ((max(0, -d) + 0x1000 + rng.choice([0, 0x10, 0x230, 0x4000])) + 15) & ~0xf
-            P = base_code + lead + roff
+            P = base_code + shift + lead + roff
             base = P + bias if rtype != "lit8" else ((P + 4) & ~3)
             S = base + d - addend
             if S < 0:
@@ -606,6 +616,8 @@ def gen_reloc_job(rng, arch):
             mems.append({"name": "md", "loc": base_code + 0x1000, "size": 0x100,
                          "ins": [{"k": "section", "name": "data", "al": 0}]})
         lay = {"on": True, "entry": "", "mems": mems} if rng.random() < 0.8 else NO_LAYOUT
+    if shift:
+        texts.insert(0, "section code\nds %d\n" % shift)
     try:
         objects = [_asm(t, arch) for t in texts]
     except Exception:  # the assembler refuses the text: not a link job
